@@ -643,7 +643,31 @@ def run(run):
     ob_lex_new(run, mir, rp)
     ob_caret(run, mir, rp)
     import lexstep
-    lexstep.obligations(run, mir, rp, lexstep_replay(rp), want=("advance", "invariants"))
+    def interp_replay(what):
+        base = lexstep_replay(rp)(what)
+        if what != "interpolation-offset":
+            return base
+
+        def f(model):
+            cases = [('x := "a{b}"', [(1, 9)]), ('"{ab} c {d}"', [(1, 3), (1, 10)]), ('def y := 1\nprint("v={y} w={y}")', [(2, 11), (2, 17)]),
+                     ('"{a + b}"', [(1, 3), (1, 5), (1, 7)])]
+            bad = []
+            for src, want_pos in cases:
+                st_, toks = rp.tokens(src)
+                if st_ != "OK":
+                    bad.append(f"{src!r}: {st_}")
+                    continue
+                got = []
+                for t in toks:
+                    if t["tok"].startswith("Str("):
+                        got += [(int(a), int(b)) for a, b in re.findall(r"start: CaretPos \{ line: (\d+), pos: (\d+) \}", t["tok"])]
+                if got != want_pos:
+                    bad.append(f"{src!r}: interpolated tokens start at {got}, their characters are at {want_pos}")
+            if bad:
+                return {"reproduced": True, "role": "interpolation-offset", "detail": "; ".join(bad[:2])}
+            return {"reproduced": False, "detail": f"{len(cases)} interpolated strings: inner tokens sit on their characters"}
+        return f
+    lexstep.obligations(run, mir, rp, interp_replay, want=("advance", "invariants", "interp"))
     run.assume("lexer step (E2): the character iterator follows its documented contract over an arbitrary ASCII stream of <= 2^20 "
                "characters; Strings are modelled by their length; as_op_or_id returns a token spelled like the lexeme (decided by "
                "the Kani table harness); tokenize_direct (re-lexing of interpolations) is uninterpreted")
